@@ -278,6 +278,40 @@ mut("revert-D7-lone-dash-skipped", OPT, '''		case arg == "-" || arg == "--":
 		case arg == "--":
 			return o.theOne.ValueSetFromEnv, args''', ["C01"], "revert of fix d9437e5 (lone dash skipped by the option matcher)")
 # ---- controls: behaviour changes that no property forbids; nothing may fire
+mut("child-initialised-before-parent-bound", CMD, """	if err := c.fsm.Parse(args[:nargsLen]); err != nil {
+		fmt.Fprintf(stdErr, "Error: %s\\n", err.Error())""", """	if nargsLen < len(args) {
+		for _, sub := range c.commands {
+			if sub.isAlias(args[nargsLen]) && sub.fsm == nil {
+				if err := sub.doInit(); err != nil {
+					panic(err)
+				}
+			}
+		}
+	}
+	if err := c.fsm.Parse(args[:nargsLen]); err != nil {
+		fmt.Fprintf(stdErr, "Error: %s\\n", err.Error())""", ["C04"], "a sub-command's initializer runs before its parent's own tokens are validated and bound (it reads stale parent variables)",
+    more=[("""		if sub.isAlias(arg) {
+			if err := sub.doInit(); err != nil {
+				panic(err)
+			}
+			return sub.parse(args[1:], entry, newInFlow, newOutFlow)""", """		if sub.isAlias(arg) {
+			if sub.fsm == nil {
+				if err := sub.doInit(); err != nil {
+					panic(err)
+				}
+			}
+			return sub.parse(args[1:], entry, newInFlow, newOutFlow)""")])
+mut("help-takes-a-lock-it-already-holds", CMD, """func (c *Cmd) printHelp(longDesc bool) {
+""", """var helpMu sync.Mutex
+
+func (c *Cmd) printHelp(longDesc bool) {
+	helpMu.Lock()
+	defer helpMu.Unlock()
+	if len(c.parents) > 1 {
+		helpMu.Lock() // "nested" help: self-deadlock
+	}
+""", ["C07"], "printing the help of a command two levels down blocks forever on a library mutex (no CPU is burnt: only the goroutine dump of the stalled worker shows it)",
+    more=[('import (\n', 'import (\n	"sync"\n')])
 mut("control-help-layout", CMD, "tabwriter.NewWriter(stdErr, 15, 1, 3, ' ', 0)", "tabwriter.NewWriter(stdErr, 24, 1, 4, ' ', 0)", [], "column widths of the help change", quiet=["C17", "C14", "C07", "C16"])
 mut("control-error-wording", FSM, 'fmt.Errorf("incorrect usage")', 'fmt.Errorf("wrong usage, see below")', [], "wording of the usage error changes", quiet=["C07", "C04", "C13", "C14"])
 mut("control-error-prefix", CMD, 'fmt.Fprintf(stdErr, "Error: %s\\n", err.Error())', 'fmt.Fprintf(stdErr, "error - %s\\n", err.Error())', [], "prefix of the error line changes", quiet=["C07", "C04", "C13", "C14", "C17"])
@@ -294,7 +328,7 @@ mut("control-no-action-returns-quietly", CMD, '''		c.PrintHelp()
 
 
 def sh(cmd, **kw):
-    return subprocess.run(cmd, shell=True, capture_output=True, text=True, env=ENV, **kw)
+    return subprocess.run(cmd, shell=True, capture_output=True, text=True, errors="replace", env=ENV, **kw)
 
 def main():
     args = [a for a in sys.argv[1:] if not a.startswith("--")]
